@@ -317,7 +317,34 @@ def work(shard, rec):
     if shard["kind"] == "cli":
         return cli_strict(shard, rec, lib)
     if shard["kind"] == "strict":
-        PW.run_cases(shard, rec, lib, [judge_strict])
+        def judge_bulk(case, obs, rec):
+            """Strict mode asked through the bulk API (mode=0 as a positional or keyword argument), two text sizes in one list."""
+            from cmv.gen import spellings as SP
+            if (case["t"][0] + case["b"][1]) % 3:
+                return
+            text, bg = SP.from_json(case["text"], case["tk"]), SP.from_json(case["bg"], case["bk"])
+            vr = bool(case["t"][2] & 1)
+            try:
+                if case["b"][0] & 1:
+                    res = lib.make_readable_bulk([(text, bg), (text, bg, True)], mode=0, very_readable=vr)
+                else:
+                    res = lib.make_readable_bulk([(text, bg, True), (text, bg, False)], 0, vr)
+            except Exception as e:
+                rec.violation(f"make_readable_bulk(mode=0) raised {type(e).__name__}: {e}", {"fn": "strict_bulk", **{k: case[k] for k in ("text", "bg", "tk", "bk", "t", "b")}, "vr": vr})
+                return
+            for colour, status in res:
+                rb = PW.readback(tuple(colour) if isinstance(colour, list) else colour)
+                if rb is None:
+                    rec.count("unreadable_result(C06)")
+                    continue
+                d = own_de(obs["orig"], rb)
+                rec.count("strict_bulk_judged")
+                rec.maxi("max_strict_bulk_dE", round(d, 4))
+                if d > 5.0 + DE_SLACK:
+                    rec.violation(f"make_readable_bulk(text={case['text']!r}, bg={case['bg']!r}, mode=0, very_readable={vr}) returned {colour!r} ({status}), "
+                                  f"dE {d:.3f} > 5.0 from the original {obs['orig']}",
+                                  {"fn": "strict_bulk", **{k: case[k] for k in ("text", "bg", "tk", "bk", "t", "b")}, "vr": vr, "observed": repr(res)})
+        PW.run_cases(shard, rec, lib, [judge_strict, judge_bulk])
     elif shard["kind"] == "routines":
         routines(shard, rec, lib)
     else:
@@ -340,6 +367,14 @@ def replay(case):
         d = own_de(p.text.rgb, PW.readback(out[0]))
         print(f"strict make_readable -> {out!r}; own dE from original {p.text.rgb} = {d:.4f}")
         return d <= 5.0 + DE_SLACK
+    if fn == "strict_bulk":
+        text = SP.from_json(case["text"], case["tk"])
+        bg = SP.from_json(case["bg"], case["bk"])
+        p = lib.ColorPair(text, bg)
+        res = lib.make_readable_bulk([(text, bg), (text, bg, True)], mode=0, very_readable=case["vr"])
+        ds = [own_de(p.text.rgb, PW.readback(tuple(c) if isinstance(c, list) else c)) for c, _ in res]
+        print(f"make_readable_bulk(mode=0) -> {res!r}; own dE from original {p.text.rgb} = {ds}")
+        return max(ds) <= 5.0 + DE_SLACK
     if fn in ("binary_search_lightness", "gradient_descent_oklch"):
         t, b = tuple(case["t"]), tuple(case["b"])
         res = getattr(opt, fn)(t, b, case["tol"], case["target"], case["large"])
